@@ -292,9 +292,47 @@ Proof.
     + intro H. inversion H; subst. split; assumption.
 Qed.
 
+Lemma ival_ok_spec g ar e x it : ival_ok g ar e x it = true <-> IValOk g ar e x it.
+Proof.
+  destruct it as [h s|alts|files]; simpl.
+  - apply file_ok_spec.
+  - rewrite andb_true_iff, has_type_spec. destruct (get e "value") as [j|].
+    + pose proof (item_ok_spec g ar j (ILit alts)) as Hi. simpl in Hi. rewrite Hi.
+      split; [intros [H1 H2]; split; [exact H1|exists j; auto]|
+              intros [H1 [j' [Heq H2]]]; inversion Heq; subst; auto].
+    + split; [intros [_ H]; discriminate|intros [_ [j [Heq _]]]; discriminate].
+  - rewrite andb_true_iff, has_type_spec, dir_files_ok_spec. tauto.
+Qed.
+
+Lemma icarried_spec g ar y it : icarried g ar y it = true <-> ICarried g ar y it.
+Proof.
+  unfold icarried, ICarried. rewrite existsb_exists. split.
+  - intros [e [Hin He]]. fold_bool. apply andb_true_iff in He. destruct He as [Hi Hv].
+    exists e. split; [split; [exact Hin|apply id_is_spec; exact Hi]|apply ival_ok_spec; exact Hv].
+  - intros [e [[Hin Hi] Hv]]. exists e. split; [exact Hin|]. fold_bool. apply andb_true_iff.
+    split; [apply id_is_spec; exact Hi|apply ival_ok_spec; exact Hv].
+Qed.
+
+Lemma record_ok_spec g ar js fields : record_ok g ar js fields = true <-> RecordOk g ar js fields.
+Proof.
+  unfold record_ok, RecordOk. rewrite andb_true_iff, !forallb_forall. split.
+  - intros [H1 H2]. split.
+    + intros it Hit. specialize (H1 it Hit). apply existsb_exists in H1. destruct H1 as [el [Hel Hc]].
+      destruct (ref_of el) as [y|] eqn:Er; [|discriminate]. exists el, y. split; [exact Hel|].
+      split; [exact Er|apply icarried_spec; exact Hc].
+    + intros el Hel. specialize (H2 el Hel). destruct (ref_of el) as [y|] eqn:Er; [|discriminate].
+      apply existsb_exists in H2. destruct H2 as [it [Hit Hc]]. exists y, it.
+      split; [reflexivity|split; [exact Hit|apply icarried_spec; exact Hc]].
+  - intros [H1 H2]. split.
+    + intros it Hit. destruct (H1 it Hit) as [el [y [Hel [Er Hc]]]]. apply existsb_exists. exists el.
+      split; [exact Hel|]. rewrite Er. apply icarried_spec. exact Hc.
+    + intros el Hel. destruct (H2 el Hel) as [y [it [Er [Hit Hc]]]]. rewrite Er. apply existsb_exists.
+      exists it. split; [exact Hit|apply icarried_spec; exact Hc].
+Qed.
+
 Lemma val_ok_spec g ar e x v : val_ok g ar e x v = true <-> ValOk g ar e x v.
 Proof.
-  destruct v as [[h s|alts|dfiles]|its|files]; simpl.
+  destruct v as [[h s|alts|dfiles]|its|files|fields|ch cs secs]; simpl.
   - apply file_ok_spec.
   - rewrite andb_true_iff, has_type_spec. destruct (get e "value") as [j|].
     + pose proof (item_ok_spec g ar j (ILit alts)) as Hi. simpl in Hi. rewrite Hi.
@@ -308,6 +346,27 @@ Proof.
               intros [H1 [j' [Heq H2]]]; inversion Heq; subst; auto].
     + split; [intros [_ H]; discriminate|intros [_ [j [Heq _]]]; discriminate].
   - rewrite andb_true_iff, has_type_spec, dir_files_ok_spec. tauto.
+  - rewrite andb_true_iff, has_type_spec. destruct (get e "value") as [j|].
+    + rewrite record_ok_spec.
+      split; [intros [H1 H2]; split; [exact H1|exists j; auto]|
+              intros [H1 [j' [Heq H2]]]; inversion Heq; subst; auto].
+    + split; [intros [_ H]; discriminate|intros [_ [j [Heq _]]]; discriminate].
+  - rewrite !andb_true_iff, has_type_spec, forallb_forall.
+    assert (Hm : match get e "mainEntity" with
+                 | Some j => match ref_of j with Some y => file_ok g ar y ch cs | None => false end
+                 | None => false end = true <->
+                 exists j y, get e "mainEntity" = Some j /\ ref_of j = Some y /\ FileOk g ar y ch cs).
+    { destruct (get e "mainEntity") as [j|]; [|split; [discriminate|intros (j & y & Hj & _); discriminate]].
+      destruct (ref_of j) as [y|] eqn:Er.
+      - rewrite file_ok_spec. split; [intro H; exists j, y; auto|].
+        intros (j' & y' & Hj & Hr & H). inversion Hj; subst j'. rewrite Er in Hr. inversion Hr; subst. exact H.
+      - split; [discriminate|]. intros (j' & y' & Hj & Hr & _). inversion Hj; subst j'. rewrite Er in Hr. discriminate. }
+    rewrite Hm. split.
+    + intros [[H1 H2] H3]. split; [exact H1|split; [exact H2|]]. intros h' s' Hin. specialize (H3 (h', s') Hin).
+      apply existsb_exists in H3. destruct H3 as [z [Hz Hf]]. exists z.
+      split; [apply prop_refs_spec; exact Hz|apply file_ok_spec; exact Hf].
+    + intros [H1 [H2 H3]]. split; [split; [exact H1|exact H2]|]. intros [h' s'] Hin. destruct (H3 h' s' Hin) as [z [Hz Hf]].
+      apply existsb_exists. exists z. split; [apply prop_refs_spec; exact Hz|apply file_ok_spec; exact Hf].
 Qed.
 
 Lemma name_is_spec e n : name_is e n = true <-> get e "name" = Some (JStr n).
@@ -461,10 +520,11 @@ Qed.
 (* ---------------------------------------------------------------- the checker decides the predicate *)
 Theorem crate_ok_sound g ar vs ss : crate_ok g ar vs ss = true -> wf_crate g ar vs ss.
 Proof.
-  unfold crate_ok. rewrite !andb_true_iff. intros [[[[[H1 H2] H3] H4] H5] H6]. constructor.
+  unfold crate_ok. rewrite !andb_true_iff. intros [[[[[[H1 H2] H3] H0] H4] H5] H6]. constructor.
   - apply all_ids_spec. exact H1.
   - apply nodupb_spec. exact H2.
   - apply refs_ok_spec. exact H3.
+  - apply nodupb_spec. exact H0.
   - apply (files_ok_spec g ar H1). exact H4.
   - intros v Hin. apply rv_ok_spec. unfold values_ok in H5. rewrite forallb_forall in H5. apply H5. exact Hin.
   - intros v Hin. apply sv_ok_spec. unfold steps_ok in H6. rewrite forallb_forall in H6. apply H6. exact Hin.
@@ -472,12 +532,13 @@ Qed.
 
 Theorem crate_ok_complete g ar vs ss : wf_crate g ar vs ss -> crate_ok g ar vs ss = true.
 Proof.
-  intros [H1 H2 H3 H4 H5 H6]. unfold crate_ok. rewrite !andb_true_iff.
+  intros [H1 H2 H3 H0 H4 H5 H6]. unfold crate_ok. rewrite !andb_true_iff.
   assert (Hall : all_ids g = true) by (apply all_ids_spec; exact H1).
-  split; [split; [split; [split; [split|]|]|]|].
+  split; [split; [split; [split; [split; [split|]|]|]|]|].
   - exact Hall.
   - apply nodupb_spec. exact H2.
   - apply refs_ok_spec. exact H3.
+  - apply nodupb_spec. exact H0.
   - apply (files_ok_spec g ar Hall). exact H4.
   - unfold values_ok. rewrite forallb_forall. intros v Hin. apply rv_ok_spec. apply H5. exact Hin.
   - unfold steps_ok. rewrite forallb_forall. intros v Hin. apply sv_ok_spec. apply H6. exact Hin.
